@@ -537,7 +537,8 @@ impl<'a> Parse<'a> for ResultList<'a> {
         if Type::peek(&mut lookahead) {
             Ok(Self::Scalar(Parse::parse(lexer)?))
         } else {
-            Ok(Self::Empty)
+            // A result list is only parsed after `->`, which must be followed by a type
+            Err(lookahead.error())
         }
     }
 }
